@@ -204,6 +204,7 @@ def run():
     rep.set("mc_depth", res.get("depth"))
     rep.phase("model_check")
     sts = drv.states_from_dump(states)
+    sts.sort(key=lambda s: (s["base"], s["kind"], s["n"], s["op"] != "init", s["verts"], s["faces"]))   # the dump order depends on thread timing
     if len(sts) != res["distinct"]:
         raise MachineryError(f"dump has {len(sts)} states, TLC reports {res['distinct']}")
     observers = drv.observers_from_output(res["out"])
